@@ -337,12 +337,25 @@ def make_views(case):
         # fraction s is the solution defined with s times the water, used directly
         src = m["src"]
         st2 = m.get("st2")
-        reused = st2 and any(n == src[0][0] for n, _ in st2["src"])
+        # ... and likewise for every source of a multi-source MIX independently: "-water W, fraction f" contributes the same
+        # water, moles and heat as "-water f W, fraction 1" (sources at different temperatures: the mixture temperature
+        # must not depend on where the factor is written)
+        used_again = {n for n, _ in st2["src"]} if st2 else set()
         # (rows of an initial exchange / surface / gas calculation mix solution and reactant amounts: not rescaled)
-        reused = reused or any((m.get(k) or {}).get("equil") == src[0][0] for k in ("ex", "su", "gas"))
-        if xf.get("scaleA") and len(src) == 1 and src[0][1] != 1.0 and not reused:
-            vA["sol_scale"] = {src[0][0]: src[0][1]}
-            info["sol_scale"] = vA["sol_scale"]
+        used_again |= {(m.get(k) or {}).get("equil") for k in ("ex", "su", "gas")}
+        if xf.get("scaleA"):
+            sc = {n: fr for n, fr in src if fr != 1.0 and n not in used_again}
+            if sc:
+                vA["sol_scale"] = sc
+                info["sol_scale"] = sc
+        # optionally combined with a renumbering and / or a permutation of view B
+        if xf.get("num"):
+            vB["num"] = {k: {int(o): int(n) for o, n in pairs} for k, pairs in xf["num"].items()}
+            info["solmap"] = vB["num"]["solution"]
+            info["mixmap"] = vB["num"].get("mix", {})
+        if xf.get("bkeys"):
+            vB["bkeys"] = xf["bkeys"]
+            vB["ikeys"] = xf["ikeys"]
     elif fam == "S":
         vB["spread"] = True
     else:
@@ -600,6 +613,15 @@ def check_case(case, ctx):
     if fam == "M":
         if info.get("sol_scale"):
             classes.append("M:fraction_vs_scaled_solution")
+            if len(m["src"]) > 1:
+                classes.append("M:multi_source_fraction_vs_scaled_solution")
+                srcs = [s0 for s0 in m["sols"] if s0["n"] in {n for n, _ in m["src"]}]
+                if len({s0["temp"] for s0 in srcs}) > 1 and len({s0["water"] for s0 in srcs}) > 1:
+                    classes.append("M:multi_source_unequal_water_and_temp")
+        if case["xf"].get("num"):
+            classes.append("M:+renumbered")
+        if case["xf"].get("bkeys"):
+            classes.append("M:+permuted")
         if any(any(c) for c in case["xf"]["copies"]):
             classes.append("M:identical_copy")
         if any(len(p) > 1 for p in case["xf"]["parts"]):
